@@ -93,6 +93,26 @@ func runServerCase(o *Out, buffered bool, size int, ops [][]string) {
 
 func suiteServer(o *Out, r *Rng, n int, tier string) {
 	for i := 0; i < n; i++ {
+		if r.Intn(50) == 0 {
+			// a large buffer and a large burst: the subscriber gets the burst plus its 200 slots of slack, whatever the size
+			o.Stat("server.big_buffer_case", 1)
+			size := []int{850, 1100, 1300}[r.Intn(3)]
+			var ops [][]string
+			for j := 0; j < size+10; j++ {
+				ops = append(ops, []string{"push", fmt.Sprintf("b%d", j)})
+			}
+			burst := []int64{830, 1000, int64(size), 9223372036854775807}[r.Intn(4)]
+			ops = append(ops, []string{"sub", fmt.Sprint(burst)}, []string{"sub", "3"})
+			for j := 0; j < 200; j++ {
+				ops = append(ops, []string{"push", fmt.Sprintf("c%d", j)})
+			}
+			for j := 0; j < size+215; j++ {
+				ops = append(ops, []string{"recv", "0"})
+			}
+			ops = append(ops, []string{"push", "after"}, []string{"recv", "0"}, []string{"recv", "1"}, []string{"ready"})
+			runServerCase(o, true, size, ops)
+			continue
+		}
 		buffered := r.Intn(6) != 0
 		size := []int{0, 1, 2, 3, 3, 5, 8}[r.Intn(7)]
 		nops := 5 + r.Intn(40)
